@@ -190,11 +190,19 @@ def report(pid, tier, seed, m, sel, res, findings, cmd, t0, outdir):
     def needs_hint(f):
         low = f["msg"].lower()
         return f["fn"] in hintless and f["clause"] and ("postcondition" in low or "invariant" in low or "assertion" in low)
-    moved = [f for f in mine if (f["fn"] in leaning and not (f["clause"] or "").endswith("#typeinv.post")) or f["fn"] in private_unknown or needs_hint(f)]
+    # (e) loop invariants and proof assertions are artifacts of *my* proof of the code as it was: when one of them fails the
+    # code may simply do the same thing another way (heap_build by repeated sift-up instead of Floyd's construction is
+    # still a heap) -- what the property states are the pre/postconditions, the built-in safety obligations and the
+    # generated obligations.  A failed artifact makes the function undecided; the stand-in search decides.
+    def artifact(f):
+        low = f["msg"].lower()
+        return bool(f["clause"]) and ("invariant" in low or "assertion failed" in low)
+    moved = [f for f in mine if (f["fn"] in leaning and not (f["clause"] or "").endswith("#typeinv.post")) or f["fn"] in private_unknown or needs_hint(f) or artifact(f)]
     if moved:
         mine = [f for f in mine if f not in moved]
         for f in moved:
             why = "in a new private function without contract" if f["fn"] in private_unknown else \
+                "a loop invariant / proof assertion of the contract's own proof: the code may do the same thing another way" if artifact(f) and not needs_hint(f) and f["fn"] not in leaning else \
                 "in a function whose proof hints lost their anchor: the proof may only be missing them" if needs_hint(f) and f["fn"] not in leaning else \
                 "in a function that calls %s, which has no contract" % ", ".join(sorted(uname & set(m["functions"][f["fn"]].get("callees", []))))
             f = dict(f, kind="tool", msg="%s (%s)" % (f["msg"], why))
